@@ -212,7 +212,6 @@ pub fn crc(out: &mut Out, seed: u64, thorough: bool) {
         let p = rng.bytes(n);
         crc_event(out, rng.next() as u16, rng.next() as u16, &l, &p);
     }
-    let _ = crc32_mpeg;
 }
 
 // --------------------------------------------------------------------- C20
@@ -439,9 +438,35 @@ pub fn utils(out: &mut Out, seed: u64, thorough: bool) {
                 if kind == 0 {
                     // the decapsulator accepts it with the same field values (judged by the decap clauses)
                     rx.ev_reset(out);
-                    let o = rx.ev_decap(out, &bytes, vec![]);
+                    let o = rx.ev_decap(out, &bytes, vec![("utl", "true".to_string())]);
                     if let Some(bx) = o.returned {
                         rx.ev_provision_buf(out, bx);
+                    }
+                }
+                if kind == 1 {
+                    // a first fragment built with the utils struct whose total length is consistent (the fragment
+                    // carries the whole PDU, or all but a few bytes), then the CRC-bearing end packet
+                    let rest = i % 3; // bytes left for the end packet
+                    let tl2 = (2 + label.len() + plen + rest) as u16;
+                    let gl = 5 + label.len() + plen;
+                    let mut b = vec![0x55u8; gl + 2];
+                    let gen = catch_unwind(AssertUnwindSafe(|| GseFirstFragPacket::new(gl as u16, fragid, tl2, ptype, label, &pdu).generate(&mut b)));
+                    if gen.is_ok() {
+                        rx.ev_reset(out);
+                        rx.note_id(fragid);
+                        let _ = rx.ev_decap(out, &b, vec![("utl", "true".to_string())]);
+                        let tail: Vec<u8> = (0..rest).map(|x| x as u8 + 1).collect();
+                        let mut whole = pdu.clone();
+                        whole.extend(&tail);
+                        let crc = crc32_mpeg(&[&tl2.to_be_bytes(), &ptype.to_be_bytes(), label.get_bytes(), &whole]);
+                        let gle = 5 + rest;
+                        let mut e = vec![0x55u8; gle + 2];
+                        if catch_unwind(AssertUnwindSafe(|| GseEndFragPacket::new(gle as u16, fragid, &tail, crc).generate(&mut e))).is_ok() {
+                            let o = rx.ev_decap(out, &e, vec![("utl", "true".to_string())]);
+                            if let Some(bx) = o.returned {
+                                rx.ev_provision_buf(out, bx);
+                            }
+                        }
                     }
                 }
             }
@@ -508,6 +533,7 @@ pub fn memops(out: &mut Out, seed: u64, thorough: bool, scn: Option<&str>) {
         let mut held: Vec<(Option<DecapContext>, Box<[u8]>)> = vec![]; // caller-owned
         let mut next_len = pdu_size; // unique lengths; below/at/above the configured size
         let mut serial = 0u16;
+        let mut big_count = 0usize;
         let nops = match script {
             Some(s) => s.len(),
             None => rng.range(5, 50),
@@ -520,7 +546,8 @@ pub fn memops(out: &mut Out, seed: u64, thorough: bool, scn: Option<&str>) {
                     (p.next().unwrap_or("").to_string(), p.next().and_then(|x| x.parse().ok()).unwrap_or(0))
                 }
                 None => match rng.below(10) {
-                    0 | 1 => ("provision".into(), rng.below(3)),
+                    0 => ("provision".into(), rng.below(3)),
+                    1 => if rng.chance(1, 3) { ("provision_big".into(), rng.below(4)) } else { ("provision".into(), rng.below(3)) },
                     2 => ("provision_small".into(), 0),
                     3 => ("new_pdu".into(), 0),
                     4 | 5 => ("new_frag".into(), *rng.pick(&ids) as usize),
@@ -532,12 +559,16 @@ pub fn memops(out: &mut Out, seed: u64, thorough: bool, scn: Option<&str>) {
             let mut o = Obj::new().str("ev", "mem_op").str("op", &op).num("arg", arg);
             let mut content_ok = true;
             match op.as_str() {
-                "provision" | "provision_small" | "reprovision" => {
+                "provision" | "provision_small" | "provision_big" | "reprovision" => {
                     let buf: Box<[u8]> = if op == "reprovision" {
                         if held.is_empty() {
                             continue;
                         }
                         held.remove(arg % held.len()).1
+                    } else if op == "provision_big" {
+                        // lengths at and just above multiples of 64 KiB (unique per scenario)
+                        big_count += 1;
+                        pattern([65536usize, 65537, 65536 + pdu_size - 1, 131072, 131073][arg % 5] + 8 * big_count)
                     } else if op == "provision_small" {
                         pattern(1 + (k % (pdu_size - 1)))
                     } else {
